@@ -11,8 +11,9 @@
 //!     resp : `<status>/<framing>/<cut>/<pace>/<split>/<body>`   one per configured server URL, in order
 //!            framing `len|chunked|close`; cut `-` or the number of body bytes after which the connection is closed;
 //!            pace = microseconds between pieces; split `w` (one piece) | `l` (line by line) | `s<seed>` (random pieces)
-//!            body `g<seed>.<lines>[+c<j>][+t][+u][+o]` (generated; `+c<j>` line j made unparseable, `+t` final newline removed,
-//!                 `+u` contains its own INFO URL line, `+o` ends inside an open FUNC item) | `e` (empty) | `x<hex>`
+//!            body `g<seed>.<lines>[+c<j>][+t][+u][+o][+M<k>][+L<k>]` (generated; `+c<j>` line j made unparseable, `+t` final newline removed,
+//!                 `+u` contains its own INFO URL line, `+o` ends inside an open FUNC item, `+M<k>` a terminated line of k bytes in the
+//!                 middle, `+L<k>` an unterminated last line of k bytes) | `e` (empty) | `x<hex>`
 //!     drop : `-` run to completion | `k` drop the future after k polls | `all` completion, then every poll boundary in turn
 //!     race : `1` = two concurrent calls for the same module (needs exactly two resps, one server each): the second call
 //!            passes its cache lookup, then the first runs to completion, then the second finishes
@@ -293,7 +294,17 @@ fn body_bytes(spec: &str, m: &Mod) -> Option<Vec<u8>> {
     let mut unterminated = false;
     let mut own_url = false;
     let mut open_func = false;
+    let mut long_tail: Option<usize> = None;
+    let mut long_mid: Option<usize> = None;
     for p in parts {
+        if let Some(k) = p.strip_prefix('L') {
+            long_tail = Some(k.parse().ok()?);
+            continue;
+        }
+        if let Some(k) = p.strip_prefix('M') {
+            long_mid = Some(k.parse().ok()?);
+            continue;
+        }
         if let Some(j) = p.strip_prefix('c') {
             corrupt = Some(j.parse().ok()?);
         } else if p == "t" {
@@ -313,6 +324,13 @@ fn body_bytes(spec: &str, m: &Mod) -> Option<Vec<u8>> {
         l.extend_from_slice(&lines[j]);
         lines[j] = l;
     }
+    if let Some(k) = long_mid {
+        // a terminated PUBLIC line of k bytes in the middle (longer than the parser's window when k > 160 KiB)
+        let mut l = b"PUBLIC ffff0 0 ".to_vec();
+        l.resize(k.max(16), b'm');
+        let at = (lines.len() / 2).max(1);
+        lines.insert(at, l);
+    }
     let mut out = vec![];
     for l in &lines {
         out.extend_from_slice(l);
@@ -320,6 +338,12 @@ fn body_bytes(spec: &str, m: &Mod) -> Option<Vec<u8>> {
     }
     if unterminated {
         out.pop();
+    }
+    if let Some(k) = long_tail {
+        // an UNTERMINATED last line of k bytes
+        let mut l = b"PUBLIC ffff8 0 ".to_vec();
+        l.resize(k.max(16), b'z');
+        out.extend_from_slice(&l);
     }
     Some(out)
 }
@@ -1052,7 +1076,10 @@ fn oracle(c: &Case, m: &Mod, prep: &Prepared, obs: &RunObs, what: &str, out: &mu
                     let ua = a.url.as_deref().map(|u| canon_str(u, obs.port));
                     let ub = b.url.as_deref().map(|u| canon_str(u, obs.port));
                     if ua != ub {
-                        out.push(("cached-url-differs-from-original".into(), format!("{what}: downloaded url {ua:?}, from cache {ub:?}")));
+                        let ri = if c.race { winner } else { obs.reqs[0].last().copied().unwrap_or(0).min(c.resps.len() - 1) };
+                        let body_ends_nl = effective_body(&c.resps[ri], &prep.bodies[ri]).map(|b| b.last() == Some(&b'\n')).unwrap_or(true);
+                        let class = if body_ends_nl { "cached-url-differs-from-original" } else { "cached-url-lost-behind-unterminated-overlong-line" };
+                        out.push((class.into(), format!("{what}: downloaded url {ua:?}, from cache {ub:?}")));
                     }
                 }
                 _ => out.push(("cached-lookup-fails".into(), format!("{what}: download gave {:?}, the cache then serves {:?}", obs.results, obs.second))),
@@ -1141,6 +1168,16 @@ fn build_model_request(c: &Case, m: &Mod, prep: &Prepared) -> String {
         if c.drop == "-" { 0 } else { 1 },
         tasks.join(" ")
     )
+}
+
+/// bodies with a line the toy parser of the model has no counterpart for (the real parser's
+/// over-long-line recovery, C09's subject): such cases are checked by the oracle only
+fn outside_model(c: &Case) -> bool {
+    c.resps.iter().any(|r| {
+        r.body.split('+').any(|p| {
+            (p.starts_with('L') || p.starts_with('M')) && p[1..].parse::<usize>().map(|k| k > 70000).unwrap_or(false)
+        })
+    })
 }
 
 fn skipped_for_root(c: &Case) -> bool {
@@ -1274,6 +1311,14 @@ impl Engine for Cache {
             let b = resp_gen(rng, kb, false);
             emit(mk(rng.below(3), "-", "-", vec![a, b], "-", true));
         }
+        // 6b. very long lines: within the window (model compared), beyond it in the middle (dropped by recovery),
+        //     and beyond it as an unterminated last line (parses Ok by recovery — the cached URL note is lost)
+        for (i, tail) in ["+M40000", "+M170000", "+L170000", "+L400"].iter().enumerate() {
+            let mut r = resp_gen(rng, "ok", false);
+            r.body = format!("g{}.{}{}", rng.below(1000), rng.range(2, 12), tail);
+            r.split = if i % 2 == 0 { "w".into() } else { format!("s{}", rng.below(1000)) };
+            emit(mk(rng.below(3), "-", "-", vec![r], "-", false));
+        }
         // 7. bodies larger than the parser's initial 10 KiB window
         for _ in 0..(if quick { 3 } else { 20 }) {
             let kind = *rng.pick(&["ok", "ok", "corrupt", "cut"]);
@@ -1287,7 +1332,7 @@ impl Engine for Cache {
 
     fn model_request(&self, case: &str) -> Option<String> {
         let c = parse_case(case)?;
-        if skipped_for_root(&c) {
+        if skipped_for_root(&c) || outside_model(&c) {
             return None;
         }
         let m = &MODULES[c.m];
